@@ -11,19 +11,25 @@ Open Scope list_scope.
 (* If the checker accepts the program of a creator method then, for every interpretation of
    its conditions, every initial object state and every call history of any length (any
    order of dialects): the k-th call returns what a fresh object (state st0) returns for the
-   k-th argument, and every attribute the method never writes - the user-visible fields -
-   still has its initial value. *)
+   k-th argument. *)
 Theorem C17_pure_if_summary_ok :
   forall truth p out, pure p out = true ->
   forall st0 hist,
-    fst (run truth p out st0 hist) = map (fun d => snd (call truth p out st0 d)) hist /\
-    forall a, mem a (writes p) = false -> snd (run truth p out st0 hist) a = st0 a.
+    fst (run truth p out st0 hist) = map (fun d => snd (call truth p out st0 d)) hist.
 Proof.
   intros truth p out Hp st0 hist.
-  destruct (pure_history truth p out Hp hist st0 st0 (fun a _ => eq_refl)) as [H1 H2].
-  split; [exact H1|]. intros a Ha. apply H2. exact Ha.
+  exact (proj1 (pure_history truth p out Hp hist st0 st0 (fun a _ => eq_refl))).
 Qed.
 Print Assumptions C17_pure_if_summary_ok.
+
+(* "leaves those objects unchanged": if the second per-run obligation holds - the program writes
+   nothing but dialect slots (`*.sql_dialect`) - then after any call history every other attribute,
+   i.e. everything the user supplied or can observe, still has its initial value. *)
+Theorem C17_user_visible_state_unchanged :
+  forall truth p out, writes_only_dialect_slots p = true ->
+  forall st0 hist a, is_dialect_slot a = false -> snd (run truth p out st0 hist) a = st0 a.
+Proof. exact user_visible_unchanged. Qed.
+Print Assumptions C17_user_visible_state_unchanged.
 
 (* the same for two different objects that were constructed alike (agree on the attributes
    the method does not write): a used object and a freshly constructed one *)
@@ -72,7 +78,7 @@ Definition exact_match_prog : list stmt :=
 Definition exact_match_out : aexpr :=
   AFn "sql" (APair (AAttr "col_expression") (APair (AAttr "col_expression.sql_dialect") AArg)).
 Example C17_example_exact_match :
-  pure exact_match_prog exact_match_out = true /\
+  pure exact_match_prog exact_match_out = true /\ writes_only_dialect_slots exact_match_prog = true /\
   summary exact_match_prog = [("col_expression.sql_dialect", SetFromArg)] /\
   outputs_all_equal_fresh exact_match_prog exact_match_out [TAtom "duckdb"; TAtom "spark"; TAtom "duckdb"; TAtom "sqlite"] = true /\
   changed_attrs exact_match_prog [TAtom "duckdb"; TAtom "spark"] = ["col_expression.sql_dialect"].
@@ -88,7 +94,7 @@ Definition atd_prog : list stmt :=
 Definition atd_out : aexpr :=
   AFn "sql" (APair (AAttr "col_expression") (APair (AAttr "col_expression.sql_dialect") (AAttr "time_threshold_seconds"))).
 Example C17_example_absolute_time_difference_rejected :
-  pure atd_prog atd_out = false /\
+  pure atd_prog atd_out = false /\ writes_only_dialect_slots atd_prog = false /\
   existsb (fun x => String.eqb (fst x) "col_expression" && wclass_eqb (snd x) SelfDependent) (summary atd_prog) = true /\
   outputs_all_equal_fresh atd_prog atd_out [TAtom "duckdb"; TAtom "duckdb"] = false.
 Proof. vm_compute. repeat split; reflexivity. Qed.
